@@ -126,7 +126,7 @@ PROPS = {
             "harness/src/props/c15.rs canon_json (rewrites the real JSON text: strings as code points, floats as bit patterns) and harness/src/recipe_sexp.rs (typed recipe to S-expression through public accessors; `reference_target` of a definition is not observable and sent as none)"],
         "assumptions": ["every number of the recipe is finite (the property's premise)",
                         "modifier bits are the five declared flags (bitflags prints other bits in hexadecimal, not modelled)",
-                        "Metadata.map is an opaque JSON object in the model: after the repair of the front-matter check a parsed mapping has string keys and no tags; equality of the YAML values read back is evaluated by the oracle on the implementation only",
+                        "Metadata.map is an opaque JSON object in the model: the theorems cover metadata that is JSON-representable (string keys at every depth, no YAML tags); front matter outside that class is accepted by the parser and does not survive serialization (known finding F-C15-1, re-found by the oracle every run); equality of the YAML values read back is evaluated by the oracle on the implementation only",
                         "u32/usize ranges are not modelled (naturals)"],
     },
 }
